@@ -121,7 +121,7 @@ fn instr_next_step_600() {
     kani::cover!(buf[0] == 0xff);
 }
 
-//@ harness: instr_next_step_pushdata4 class=F tier=quick props=C16,C10 timeout=600
+//@ harness: instr_next_step_pushdata4 class=F tier=thorough props=C16,C10 timeout=1500
 //@ clause: the PUSHDATA2/PUSHDATA4 acceptance boundaries that need a long buffer: 65 600 zero bytes with a fully symbolic 5-byte header and symbolic length: PUSHDATA4 of >= 0x10000 bytes is accepted exactly when the bytes are there, rejected as non-minimal below 0x10000 when enforcing; PUSHDATA2 up to 0xffff likewise
 #[kani::proof]
 fn instr_next_step_pushdata4() {
@@ -286,16 +286,38 @@ macro_rules! compose3 {
         }
     };
 }
-//@ harness: builder_compose2_op class=B tier=quick bound="2 operations: first = opcode with VERIFY form, second = each of the 12 kinds (5 opcodes / other opcode / data 0,1,3 bytes / ints -1,0,16,17,128,-300 / push_verify)" timeout=900
-//@ clause: iterating the script built by two builder operations yields exactly those operations (instructions(); also instructions_minimal() unless a single byte 1..=16/0x81 was pushed as data); push_verify folds exactly into a directly preceding EQUAL/NUMEQUAL/CHECKSIG/CHECKMULTISIG/CHECKSIGFROMSTACK
-compose2!(builder_compose2_op, 0);
-//@ harness: builder_compose2_opn class=B tier=quick bound="2 operations: first = any non-foldable opcode > 0x4e, second = each of the 12 kinds" timeout=900
-//@ clause: same; push_verify after any other opcode appends OP_VERIFY
-compose2!(builder_compose2_opn, 1);
+macro_rules! compose2sel {
+    ($name:ident, $a:expr; $($b:expr),*) => {
+        #[kani::proof]
+        #[kani::unwind(6)]
+        fn $name() {
+            all2!($a; $($b),*);
+            kani::cover!(true);
+        }
+    };
+}
+//@ harness: builder_compose2_op_verify class=B tier=quick bound="2 operations: opcode with a VERIFY form (symbolic among the five), then push_verify" timeout=900
+//@ clause: push_verify folds exactly into a directly preceding EQUAL/NUMEQUAL/CHECKSIG/CHECKMULTISIG/CHECKSIGFROMSTACK and the folded script parses back to the single VERIFY-form opcode
+compose2sel!(builder_compose2_op_verify, 0; 11);
+//@ harness: builder_compose2_op_a class=B tier=thorough bound="2 operations: first = opcode with VERIFY form, second = opcode kinds 0,1 / data 0,1,3 bytes" timeout=1800
+//@ clause: iterating the script built by two builder operations yields exactly those operations (instructions(); also instructions_minimal() unless a single byte 1..=16/0x81 was pushed as data)
+compose2sel!(builder_compose2_op_a, 0; 0, 1, 2, 3, 4);
+//@ harness: builder_compose2_op_b class=B tier=thorough bound="2 operations: first = opcode with VERIFY form, second = ints -1,0,16,17,128,-300" timeout=1800
+//@ clause: same
+compose2sel!(builder_compose2_op_b, 0; 5, 6, 7, 8, 9, 10);
+//@ harness: builder_compose2_opn_verify class=B tier=quick bound="2 operations: any non-foldable opcode > 0x4e, then push_verify" timeout=900
+//@ clause: push_verify after any other opcode appends OP_VERIFY
+compose2sel!(builder_compose2_opn_verify, 1; 11);
+//@ harness: builder_compose2_opn_a class=B tier=thorough bound="2 operations: first = any non-foldable opcode > 0x4e, second = opcode kinds 0,1 / data 0,1,3 bytes" timeout=1800
+//@ clause: same as builder_compose2_op_a
+compose2sel!(builder_compose2_opn_a, 1; 0, 1, 2, 3, 4);
+//@ harness: builder_compose2_opn_b class=B tier=thorough bound="2 operations: first = any non-foldable opcode > 0x4e, second = ints -1,0,16,17,128,-300" timeout=1800
+//@ clause: same
+compose2sel!(builder_compose2_opn_b, 1; 5, 6, 7, 8, 9, 10);
 //@ harness: builder_compose2_d0 class=B tier=quick bound="2 operations: first = empty data push, second = each of the 12 kinds" timeout=900
 //@ clause: same; data is never folded
 compose2!(builder_compose2_d0, 2);
-//@ harness: builder_compose2_d1 class=B tier=quick bound="2 operations: first = 1-byte data push (any byte), second = each of the 12 kinds" timeout=900
+//@ harness: builder_compose2_d1 class=B tier=thorough bound="2 operations: first = 1-byte data push (any byte), second = each of the 12 kinds" timeout=1800
 //@ clause: same; a data byte equal to a foldable opcode is not folded
 compose2!(builder_compose2_d1, 3);
 //@ harness: builder_compose2_d3 class=B tier=quick bound="2 operations: first = 3-byte data push (any bytes), second = each of the 12 kinds" timeout=900
@@ -310,18 +332,31 @@ compose2!(builder_compose2_int_wide, 9);
 //@ harness: builder_compose2_verify class=B tier=quick bound="2 operations: first = push_verify on the empty builder, second = each of the 12 kinds" timeout=900
 //@ clause: same; push_verify on an empty builder appends OP_VERIFY, a second push_verify appends another
 compose2!(builder_compose2_verify, 11);
-//@ harness: builder_compose3_op_verify class=B tier=thorough bound="3 operations: foldable opcode, push_verify, then each of the 12 kinds" timeout=1800
+macro_rules! compose3sel {
+    ($name:ident, $a:expr, $b:expr; $($c:expr),*) => {
+        #[kani::proof]
+        #[kani::unwind(6)]
+        fn $name() {
+            all3!($a, $b; $($c),*);
+            kani::cover!(true);
+        }
+    };
+}
+//@ harness: builder_compose3_op_verify_a class=B tier=thorough bound="3 operations: foldable opcode, push_verify, then opcode kinds 0,1 / data 0,1 bytes" timeout=2400
 //@ clause: same for three operations: after a fold the VERIFY form is the last opcode and is not folded again
-compose3!(builder_compose3_op_verify, 0, 11);
-//@ harness: builder_compose3_d1_op class=B tier=thorough bound="3 operations: 1-byte data push, foldable opcode, then each of the 12 kinds" timeout=1800
+compose3sel!(builder_compose3_op_verify_a, 0, 11; 0, 1, 2, 3);
+//@ harness: builder_compose3_op_verify_b class=B tier=thorough bound="3 operations: foldable opcode, push_verify, then data 3 bytes / ints -1,0,16" timeout=2400
+//@ clause: same
+compose3sel!(builder_compose3_op_verify_b, 0, 11; 4, 5, 6, 7);
+//@ harness: builder_compose3_op_verify_c class=B tier=thorough bound="3 operations: foldable opcode, push_verify, then ints 17,128,-300 / push_verify" timeout=2400
+//@ clause: same
+compose3sel!(builder_compose3_op_verify_c, 0, 11; 8, 9, 10, 11);
+//@ harness: builder_compose3_d1_op_a class=B tier=thorough bound="3 operations: 1-byte data push, foldable opcode, then opcode kinds 0,1 / data 0,1 bytes" timeout=2400
 //@ clause: same for three operations: folding after data + opcode touches only the opcode
-compose3!(builder_compose3_d1_op, 3, 0);
-
-//@ harness: tmp_one_scn class=B tier=quick
-#[kani::proof]
-#[kani::unwind(6)]
-fn tmp_one_scn() { scenario2(0, 11); kani::cover!(true); }
-//@ harness: tmp_two_scn class=B tier=quick
-#[kani::proof]
-#[kani::unwind(6)]
-fn tmp_two_scn() { scenario2(3, 9); kani::cover!(true); }
+compose3sel!(builder_compose3_d1_op_a, 3, 0; 0, 1, 2, 3);
+//@ harness: builder_compose3_d1_op_b class=B tier=thorough bound="3 operations: 1-byte data push, foldable opcode, then data 3 bytes / ints -1,0,16" timeout=2400
+//@ clause: same
+compose3sel!(builder_compose3_d1_op_b, 3, 0; 4, 5, 6, 7);
+//@ harness: builder_compose3_d1_op_c class=B tier=thorough bound="3 operations: 1-byte data push, foldable opcode, then ints 17,128,-300 / push_verify" timeout=2400
+//@ clause: same
+compose3sel!(builder_compose3_d1_op_c, 3, 0; 8, 9, 10, 11);
